@@ -9,7 +9,7 @@ import numpy as np
 ID = "C07"
 RULE = ("equilibrium (Moebius) and non-equilibrium (random bulge) arc tissues and straight Voronoi tissues, 3..40 cells, "
         "0..12 interior points per interface (fixed per physical interface); relabelled realisation vs plain one; for "
-        "tissues with <= 7 cells ALL 2^cells orientation patterns; both circle fits, default / lsq_linear back-ends. "
+        "tissues with <= 7 cells ALL 2^cells orientation patterns; both circle fits, default / lsq_linear back-ends (lsq_linear compared only where the bordered normal equations it solves are regular). "
         "distinct = (family, cells, unknowns, equations, fit, method, flipped cells); non-trivial = at least one equation"
         ' Added after the seeded rounds: axis-aligned lattices whose outline stays straight while the internal interfaces are curved; ids up to 2^53+.')
 MIN_DECISIVE = {"quick": 150, "thorough": 2000}
@@ -75,6 +75,22 @@ def _compare(mon, a, b, at, r0, fit, sigs, hist, metrics, tag):
     tmax = max(1.0, max(abs(v) for v in a.tension.values()))
     solver_tol = 1e-6 if a.path in ("inv", "inv->nnls-fallback") else 1e-4     # lsq_linear / lsq: iterative, own tolerances
     tolT = (solver_tol + 40 * epsmax) * cond * tmax
+    if "lsq_linear" in (a.path, b.path):
+        # lsq_linear solves ANOTHER system, the bordered normal equations [[A^T A, 1], [1^T, 0]] without a multiplier column
+        # in the force balance: it is singular as soon as A has a null vector of zero sum (an equilibrium tissue whose force
+        # balance has a two-dimensional kernel), although the default system [[A, 1], [1^T, 0]] has a unique optimum.  Its
+        # optimum is then a whole segment and the point an iterative solver stops at is not a function of the tissue
+        # (thorough seed 12: 25-cell Moebius tissue, smallest singular value 1e-16 against 1.9e-2 for the next one).
+        # Uniqueness and conditioning are therefore judged on the system that back-end really solved (hook record).
+        for x in (a, b):
+            rec = getattr(x.fm, "_verif", None) or {}
+            if x.path != "lsq_linear" or rec.get("mprime") is None:
+                continue
+            sv = np.linalg.svd(np.array(rec["mprime"], float), compute_uv=False)
+            if sv.min() <= 1e-7 * sv.max():
+                hist["lsq_linear-system-singular"] = hist.get("lsq_linear-system-singular", 0) + 1
+                return
+            tolT = max(tolT, (1e-5 + 40 * epsmax) * float(sv.max() / sv.min()) * tmax)
     if tolT > 0.05 * tmax:
         hist["tolerance-too-coarse"] = hist.get("tolerance-too-coarse", 0) + 1
         return
